@@ -500,6 +500,45 @@ def gen_dirs_fuzz(rng, tier):
     return cases
 
 
+def lean_example_images():
+    """the byte arrays of lean/PeliteModel/Lemmas/DirsExamples.lean: the images of the non-vacuity examples of
+    Thm/C15.lean (so that what the examples say about the model is also compared with the library)"""
+    import os, re
+    p = os.path.join(os.path.dirname(os.path.dirname(os.path.abspath(__file__))), "lean", "PeliteModel", "Lemmas", "DirsExamples.lean")
+    out = {}
+    try:
+        txt = open(p).read()
+    except OSError:
+        return out
+    for m in re.finditer(r"def (\w+) : Bytes := #\[([^\]]*)\]", txt):
+        out[m.group(1)] = bytes(int(x) for x in m.group(2).replace("\n", " ").split(",") if x.strip())
+    return out
+
+
+def gen_dirs_examples(rng, tier):
+    """the example images of the theorems, every view kind they are used with, plus the two variants the examples
+    derive (data-directory array cut before the TLS slot; callback list without terminator)"""
+    imgs = lean_example_images()
+    pcs = [0, 99, 100, 115, 116, 118, 119, 120, 129, 130, 132, 147, 148, U32]
+    plan = [("demoBytes", ["v32", "f32", "wv", "wf"]), ("demoBytes64", ["v64", "wv", "f64"]), ("demoFileBytes", ["f32", "wf", "v32"])]
+    variants = []
+    if "demoBytes" in imgs:
+        b = bytearray(imgs["demoBytes"]); b[180] = 9
+        variants.append((bytes(b), ["v32", "wv"]))
+    if "demoBytes64" in imgs:
+        b = bytearray(imgs["demoBytes64"]); b[536] = 0x90; b[537] = 0x02
+        variants.append((bytes(b), ["v64", "wv"]))
+    cases = []
+    for data, ks in [(imgs[n], ks) for n, ks in plan if n in imgs] + variants:
+        for al in (0, 8):
+            case = [img_line(rng, data, al)]
+            for k in ks:
+                case.append("from_bytes " + k)
+                case += ops_for(k, pcs)
+            cases.append(case)
+    return cases
+
+
 def gen_dirs_corpus(rng, tier):
     """the repository's own binaries (demo DLLs have debug, load config, exception (64), tls?)"""
     cases = []
